@@ -232,7 +232,7 @@ def run_history_twin(case):
                 return dict(base, verdict="inconclusive", why="declared input not found by label", evaluations=total)
             oa = {"settled": ra["settle"] if ra["stable"] else None, "out": ra["obs"], "const": {}}
             ob = {"settled": rb["settle"] if rb["stable"] else None, "out": rb["obs"], "const": {}}
-            d = sem.diff_observations(oa, ob, strict=True)
+            d = sem.diff_observations(oa, ob, strict="lost")
             if any(v.get("signals") for v in ra["obs"].values()):
                 nontrivial = True
             if d:
@@ -274,6 +274,6 @@ def run_case(case):
                               edges=case.get("edges"))
         chests = C06.chests_fn(case, vals, rng)
         return sem.run_twin_case(case, case["prog"], {"optimize": True}, case["prog"], {"optimize": False},
-                                 vals=vals, chests=chests, label_a="optimize", label_b="no-optimize", strict_names=True)
+                                 vals=vals, chests=chests, label_a="optimize", label_b="no-optimize", strict_names="lost")
     return sem.run_twin_case(case, case["prog"], {"optimize": True}, case["prog"], {"optimize": False},
-                             label_a="optimize", label_b="no-optimize", strict_names=True)
+                             label_a="optimize", label_b="no-optimize", strict_names="lost")
